@@ -1199,6 +1199,7 @@ func main() {
 	outDir = *lib.OutDir
 	r := lib.Rand()
 	w := lib.NewWriter(header, 150)
+	defer w.Guard()
 	setupMaterial()
 	n := lib.Count(420, 9000)
 	seq := 0
@@ -1242,6 +1243,15 @@ func main() {
 	}
 	for _, c := range corpus {
 		single(c, []string{"corpus"})
+	}
+	// every log kind under every accepted spelling of the prefix: what the instance exposes must not
+	// depend on how the prefix is written (leading / trailing / doubled slashes, nested paths)
+	for ki, kind := range []string{"regular", "readonly", "mirror", "frozen", "frozen-mirror"} {
+		for pi, px := range []string{"log", "/log", "log/", "/log/", "/log//", "//log", "a/b", "/a/b/c/", "x", "/"} {
+			c := baseConfig(r, kind, 7000+10*ki+pi)
+			c.Prefix = px
+			single(c, []string{"prefix-grid", "prefix-grid:" + kind})
+		}
 	}
 
 	multi := func(m *configpb.LogMultiConfig, tags []string) {
